@@ -21,6 +21,7 @@ pub mod c20_dns;
 pub mod c04_udp;
 pub mod c02_sockets;
 pub mod c02_dgram;
+pub mod c18_wire;
 pub mod ndl;
 pub mod tcb_bench;
 pub mod tcb_checks;
@@ -59,7 +60,7 @@ pub fn parts_for(id: &str) -> Option<Vec<Part>> {
         "C14" => vec![part(codecs::DecodersNoPanic, 1_000_000, 20_000_000), part(ndl::NdlNoPanic, 100_000, 3_000_000), part(c14_frames::MalformedFrames, 3_000, 200_000)],
         "C19" => vec![part(ndl::NdlRoundTrip, 40_000, 2_000_000), part(ndl::NdlRun, 2_000, 100_000)],
         "C15" => vec![part(c15_ipgen::IpGenHistories, 300_000, 6_000_000), part(c15_dhcp::DhcpLeases, 5_000, 200_000)],
-        "C18" => vec![part(codecs::Codecs, 400_000, 8_000_000), part(codecs::CorruptionRejected, 400_000, 8_000_000)],
+        "C18" => vec![part(codecs::Codecs, 400_000, 8_000_000), part(codecs::CorruptionRejected, 400_000, 8_000_000), part(c18_wire::WireChecksums, 6_000, 300_000)],
         "C20" => vec![part(c20_dns::DnsResolution, 20_000, 600_000)],
         _ => return None,
     })
